@@ -80,6 +80,16 @@ def cases():
                 c.append(("shortcuts.%s/%d as %s" % (fname, k, fm), ("fn", "pysmt.shortcuts", fname), [so_] * k,
                           [] if fm == "varargs" else ["form:" + fm], ref_))
             c.append(("mgr.%s/%d as iter" % (fname, k), ("mgr", fname), [so_] * k, ["form:iter"], ref_))
+    # Python float literals on the right / left of an infix form: promoted to the Real constant of exactly that value
+    from fractions import Fraction as F2_
+    for lit in (0.1, 1e-7, 0.5, 0.3, 123456.789, -2.5e-9):
+        fl = F2_(lit)
+        c.append(("infix r+%r" % lit, ("meth", "__add__"), [REAL], [lit], (lambda fl: lambda v, W: v[0] + fl)(fl)))
+        c.append(("infix %r-r" % lit, ("meth", "__rsub__"), [REAL], [lit], (lambda fl: lambda v, W: fl - v[0])(fl)))
+        c.append(("infix r*%r" % lit, ("meth", "__mul__"), [REAL], [lit], (lambda fl: lambda v, W: v[0] * fl)(fl)))
+        c.append(("infix r<%r" % lit, ("meth", "__lt__"), [REAL], [lit], (lambda fl: lambda v, W: v[0] < fl)(fl)))
+        c.append(("infix r>=%r" % lit, ("meth", "__ge__"), [REAL], [lit], (lambda fl: lambda v, W: v[0] >= fl)(fl)))
+        c.append(("method r.Equals(%r)" % lit, ("meth", "Equals"), [REAL], [lit], (lambda fl: lambda v, W: v[0] == fl)(fl)))
     c.append(("Xor", ("mgr", "Xor"), [B, B], [], lambda v, W: v[0] != v[1]))
     c.append(("NotEquals[Bool via EqualsOrIff]", ("mgr", "EqualsOrIff"), [B, B], [], lambda v, W: v[0] == v[1]))
     c.append(("EqualsOrIff[Int]", ("mgr", "EqualsOrIff"), [INT, INT], [], lambda v, W: v[0] == v[1]))
